@@ -65,6 +65,19 @@ func c16Clobber(ctx *rt.Ctx, c c16Case) string {
 		os.WriteFile(out, nil, 0o644)
 	case "bytes":
 		os.WriteFile(out, bytes.Repeat([]byte{0xAB}, 1024), 0o644)
+	case "bbolt-empty-db", "bbolt-other-db":
+		// a valid bbolt database that is not an updog index (no buckets / somebody else's bucket)
+		db, err := bbolt.Open(out, 0o644, nil)
+		if err != nil {
+			rt.Harnessf("bbolt: %v", err)
+		}
+		if c.Existing == "bbolt-other-db" {
+			db.Update(func(tx *bbolt.Tx) error {
+				b, _ := tx.CreateBucketIfNotExists([]byte("somebody-elses-data"))
+				return b.Put([]byte("k"), []byte("precious"))
+			})
+		}
+		db.Close()
 	case "symlink-dangling":
 		os.Symlink(filepath.Join(dir, "nowhere", "x.updog"), out)
 	case "symlink-to-index":
@@ -345,7 +358,7 @@ func c16Worker(ctx *rt.Ctx, job *rt.Job) []*rt.Violation {
 
 func c16Run(ctx *rt.Ctx) []*rt.Violation {
 	var vs []*rt.Violation
-	for _, ex := range []string{"empty", "index", "bytes", "index-readonly", "symlink-dangling", "symlink-to-index", "appears"} {
+	for _, ex := range []string{"empty", "index", "bytes", "index-readonly", "bbolt-empty-db", "bbolt-other-db", "symlink-dangling", "symlink-to-index", "appears"} {
 		for _, rows := range []int{0, 3, 1500} {
 			for _, via := range []string{"flush", "create", "create-big"} {
 				if ex == "appears" && via != "flush" {
@@ -375,7 +388,7 @@ func c16Run(ctx *rt.Ctx) []*rt.Violation {
 	}
 	outs := rt.RunJobs(ctx, jobs, rt.SpawnOpt{})
 	vs = append(vs, rt.Collect(ctx, outs, nil)...)
-	ctx.Cov.Note("rule", fmt.Sprintf("clobber: 6 pre-existing contents (empty, valid index, arbitrary bytes, read-only index, dangling symlink, symlink to an index) x 3 writer sizes x {IndexWriter.Flush, updog create, updog create -b}: must fail and leave SHA-256/size/mode (and link target) unchanged; 'appears': for every write k of Flush another actor exclusively creates the output path at that moment - if it succeeds Flush must fail and leave that file alone; read: every enabled history up to depth %d over {4 open variants, 4 queries, GetSchema, Close} on copies of valid 1200-row indexes written by each of the three writer paths: SHA-256/size/mode compared after every step; non-trivial = clobber cases and read histories of length >= 3", depth))
+	ctx.Cov.Note("rule", fmt.Sprintf("clobber: 8 pre-existing contents (empty, valid index, arbitrary bytes, read-only index, bbolt database without buckets, bbolt database with a foreign bucket, dangling symlink, symlink to an index) x 3 writer sizes x {IndexWriter.Flush, updog create, updog create -b}: must fail and leave SHA-256/size/mode (and link target) unchanged; 'appears': for every write k of Flush another actor exclusively creates the output path at that moment - if it succeeds Flush must fail and leave that file alone; read: every enabled history up to depth %d over {4 open variants, 4 queries, GetSchema, Close} on copies of valid 1200-row indexes written by each of the three writer paths: SHA-256/size/mode compared after every step; non-trivial = clobber cases and read histories of length >= 3", depth))
 	return vs
 }
 
